@@ -65,6 +65,7 @@ def selection(P, cname):
             if v is not None and not (isinstance(v, ast.Constant) and v.value is None)]
     if len(rets) != 1:
         raise AnalysisError('%s: %d non-None return expressions' % (u.qual, len(rets)))
+    rets_nodes = [rets[0][0]]
     v, facts = defuse(u).closed(rets[0][0]), rets[0][1]
     # CONFIG shape: next((identifier for identifier, (validity, _, _) in loading_validity_map.items() if validity), None)
     if isinstance(v, ast.Call) and call_text(v) == 'next' and isinstance(v.args[0], ast.GeneratorExp):
@@ -88,8 +89,30 @@ def selection(P, cname):
             return (order, 'first' if idx == '0' else 'last'), u
     # LOCAL shape: local_identifier, returned under the fact `validity of the local identifier`
     loc = 'self.supvisors.mapper.local_identifier'
-    if ast.unparse(v) == loc and ('%s[%s][0]' % (LV, loc), True) in facts:
+    if ast.unparse(v) == loc and (('%s[%s][0]' % (LV, loc), True) in facts or
+                                  ('self.is_loading_valid(%s, expected_load, load_details)[0]' % loc, True) in facts):
         return ('local', 'only'), u
+    # CONFIG as a loop: `for identifier in identifiers: if <validity of identifier>: return identifier`
+    if ast.unparse(v) == 'each(identifiers)' and \
+            ('self.is_loading_valid(each(identifiers), expected_load, load_details)[0]', True) in facts or \
+            ('%s[each(identifiers)][0]' % LV, True) in facts and ast.unparse(v) == 'each(identifiers)':
+        n = [n for vv, f, n in returns(u) if vv is rets_nodes[0]][0]
+        loops = [l for l in own_nodes(u.node) if isinstance(l, ast.For) and ast.unparse(l.iter) == 'identifiers'
+                 and any(x is n for x in ast.walk(l))]
+        first = False
+        if len(loops) == 1:
+            if isinstance(n, ast.Return):
+                first = True
+            else:
+                from .c20 import block_of
+                blk = block_of(u.node, n) or []
+                k = [i for i, x in enumerate(blk) if x is n]
+                first = bool(k) and k[0] + 1 < len(blk) and isinstance(blk[k[0] + 1], ast.Break)
+        if first:
+            return ('candidate-order', 'first'), u
+        if len(loops) == 1 and isinstance(n, ast.Assign) and not any(isinstance(x, ast.Break) for x in ast.walk(loops[0])):
+            return ('candidate-order', 'last'), u
+        raise AnalysisError('%s: the candidate kept by the loop over identifiers is not provably the first valid one' % u.qual)
     if isinstance(v, ast.Call) and call_text(v) in ('min', 'max'):
         raise AnalysisError('%s: min/max selection shape not summarised' % u.qual)
     raise AnalysisError('%s: unrecognised selection shape `%s`' % (u.qual, ast.unparse(v)))
@@ -244,10 +267,15 @@ def run(P, R):
     oc = P.unit('ApplicationStartJobs.on_command_added')
     fm = factmap(oc)
     gi = [c for c in own_nodes(oc.node) if isinstance(c, ast.Call) and call_text(c) == 'get_supvisors_instance']
-    ok = len(gi) == 1 and fm.has(gi[0], 'self.distribution == DistributionRules.ALL_INSTANCES', False)
+    # ... among the instances already chosen for the application (get_process_identifiers: self.identifiers that know
+    # the program and have it enabled), not among the program's own candidates
+    ok = len(gi) == 1 and fm.has(gi[0], 'self.distribution == DistributionRules.ALL_INSTANCES', False) and \
+        len(gi[0].args) >= 3 and closed_text(oc, gi[0].args[2]) == 'self.get_process_identifiers(command.process)' and \
+        closed_text(oc, gi[0].args[1]) == 'self.starting_strategy'
     R.check(r4, ok, 'a command added later follows the application selection when not distributed',
             'distribution|on_command_added', oc.loc(), 'on_command_added does not place under `distribution != '
-            'ALL_INSTANCES`')
+            'ALL_INSTANCES` with the job strategy among self.get_process_identifiers(command.process) (the instances '
+            'already chosen for the application)')
     shared.distribution_candidates(P, R, r4)
     shared.command_added_hook(P, R, r4)
     shared.application_candidates(P, R, r4)
